@@ -2,6 +2,7 @@ import PvModel.Props.C24
 import PvModel.Props.C24Sem
 import PvModel.Props.C24Count
 import PvModel.Props.C24First
+import PvModel.Props.C24Query
 #print axioms Pv.C24_cons
 #print axioms Pv.C24_empty
 #print axioms Pv.C24_cons_sound
@@ -42,3 +43,5 @@ import PvModel.Props.C24First
 #print axioms Pv.C24_first
 #print axioms Pv.C24_rest
 #print axioms Pv.C24_cons_empty
+#print axioms Pv.C24_query_member
+#print axioms Pv.C24_query_append_splits
